@@ -448,18 +448,19 @@ class C21(Check):
                 break
             if qq['opt'] == 'trust-constr' and tag.endswith('/second-run') and \
                     np.abs(x - ref[1]).max() > 2e-3 * (1 + np.abs(ref[1]).max()):
-                # The second run starts where the first ended.  When that point sits on a linear row (passed to
-                # scipy with keep_feasible=True, as OpenMDAO does) or a bound, scipy 1.18's trust-constr stops
-                # there with "gtol satisfied" although the new optimum is interior -- reproduced with plain
-                # scipy on the same QP and start (min (1.5(x+0.5))^2/2, -0.5x in [-1.5, 0.5] keep_feasible,
-                # x0 = -0.99996 -> -0.9999998, success).  Feasibility and model state were judged above.
+                # The second run starts where the first ended.  When that point sits on an active row or bound,
+                # scipy 1.18's trust-constr (an interior-point method started on the boundary) stops early with
+                # "gtol satisfied": on a keep_feasible linear row it stays there although the new optimum is
+                # interior -- reproduced with plain scipy on the same QP and start (min (1.5(x+0.5))^2/2,
+                # -0.5x in [-1.5, 0.5] keep_feasible, x0 = -0.99996 -> -0.9999998, success) -- and on a
+                # nonlinear row it ends 2e-3 short of the bound.  Feasibility and model state were judged above.
                 xs0 = first_x.get(tag.split('/')[0])
                 near = xs0 is not None and (np.any(np.abs(xs0 - qq['xlo']) < 1e-3) or np.any(np.abs(xs0 - qq['xup']) < 1e-3)
-                                            or any(qq['cons'][k].get('linear') and e is None and
+                                            or any(e is None and
                                                    min(abs(float(a @ xs0 + d) - lo), abs(float(a @ xs0 + d) - up)) < 1e-3
                                                    for k, rr, a, d, lo, up, e in con_rows(qq)))
                 if near:
-                    probes.inc('trust_constr_restart_on_active_linear_row_optimality_not_judged')
+                    probes.inc('trust_constr_restart_on_active_row_optimality_not_judged')
                     continue
             if np.abs(x - ref[1]).max() > 2e-3 * (1 + np.abs(ref[1]).max()):
                 viol.append({'inv': 'I-21-optimum', 'msg': f"{tag} ({qq['opt']}): success at x={x.tolist()} but the optimum is "
